@@ -60,6 +60,7 @@ KF_VECSYM_COMPLEX = 'KF-vecsym-utpm-complex'
 KF_BD_COMPLEX = 'KF-base_and_dirs-complex'      # utpm2base_and_dirs and base_and_dirs2utpm (a round trip needs both)
 KF_COMBINE_COMPLEX = 'KF-combine_blocks-complex'
 KF_COMBINE_LIST = 'KF-combine_blocks-list'
+KF_COMBINE_MIXED_D = 'KF-combine_blocks-mixed-D'   # a block with fewer coefficients than the result: replicated (D_block = 1) or ValueError
 KF_MIXED_DTYPE = 'KF-container-mixed-dtype'      # as_utpm / ndarray2utpm take the dtype of the FIRST element for the whole result
 
 
@@ -96,6 +97,14 @@ def _same_bits(got, ref, what, signed_zero=True):
         pos = tuple(int(i) for i in np.argwhere(neq)[0]) if g.ndim else ()
         raise Violation('%s: entry %s is %r, expected %r (bit-wise comparison; %d of %d entries differ)'
                         % (what, pos, g[pos].item(), r[pos].item(), int(neq.sum()), g.size))
+
+
+def _no_alias(result, sources, what):
+    """converters that build a new array: the result must not share memory with any argument array"""
+    result = np.asarray(result)
+    for src in sources:
+        if isinstance(src, np.ndarray) and src.dtype != object and result.size and src.size and np.shares_memory(result, src):
+            raise Violation('%s shares memory with its argument (the two representations are not independent)' % what)
 
 
 def _is_utpm(y, what):
@@ -259,7 +268,10 @@ def prop_b2u_u2b(case, stats):
     u = _is_utpm(guard(autils.base_and_dirs2utpm, xin, Vin), 'base_and_dirs2utpm')
     P, D = V.shape[-2:]
     _same_bits(u.data, _model_b2u(x, V), 'base_and_dirs2utpm(x,V).data')
+    _no_alias(u.data, [a for a in (xin, Vin) if isinstance(a, np.ndarray)], 'base_and_dirs2utpm(x,V).data')
     x2, V2 = guard(autils.utpm2base_and_dirs, u)
+    _no_alias(x2, [u.data], 'utpm2base_and_dirs(u)[0]')
+    _no_alias(V2, [u.data], 'utpm2base_and_dirs(u)[1]')
     _same_bits(x2, x, 'utpm2base_and_dirs(base_and_dirs2utpm(x,V))[0]')
     _same_bits(V2, V, 'utpm2base_and_dirs(base_and_dirs2utpm(x,V))[1]')
     Vbar = guard(autils.utpm2dirs, u)
@@ -326,10 +338,31 @@ def prop_u2b_b2u(case, stats):
             for d in range(1, D):
                 Vm[idx + (p, d - 1)] = data[(d, p) + idx]
     _same_bits(V, Vm, 'utpm2base_and_dirs(u)[1]')
+    # the two representations are independent: x, V are new arrays (the unchanged code allocates them with numpy.zeros) ...
+    _no_alias(x, [u.data], 'utpm2base_and_dirs(u)[0]')
+    _no_alias(V, [u.data], 'utpm2base_and_dirs(u)[1]')
     u2 = _is_utpm(guard(autils.base_and_dirs2utpm, x, V), 'base_and_dirs2utpm')
     _same_bits(u2.data, data, 'base_and_dirs2utpm(*utpm2base_and_dirs(u)).data')
+    _no_alias(u2.data, [x, V], 'base_and_dirs2utpm(x,V).data')
     if u.data.tobytes() != data.tobytes():
         raise Violation('utpm2base_and_dirs modified its argument')
+    # ... so updating the extracted base point / directions in place (x += step) leaves u untouched, and the round trip from
+    # copies taken before the update still reproduces u
+    xc, Vc = x.copy(), V.copy()
+    if x.flags.writeable and V.flags.writeable:
+        x[...] = x + 1
+        V[...] = V * 2 + 1
+    if u.data.tobytes() != data.tobytes():
+        raise Violation('an in-place update of the arrays returned by utpm2base_and_dirs(u) changed u.data')
+    u3 = _is_utpm(guard(autils.base_and_dirs2utpm, xc, Vc), 'base_and_dirs2utpm')
+    _same_bits(u3.data, data, 'base_and_dirs2utpm(copies of x, V) after the in-place update')
+    # and the other way round: overwriting u afterwards does not reach the (already extracted) copies
+    x4, V4 = guard(autils.utpm2base_and_dirs, u)
+    keep = (np.array(x4, copy=True), np.array(V4, copy=True))
+    if u.data.flags.writeable:
+        u.data[...] = 0
+        if np.asarray(x4).tobytes() != keep[0].tobytes() or np.asarray(V4).tobytes() != keep[1].tobytes():
+            raise Violation('overwriting u after utpm2base_and_dirs(u) changed the returned arrays')
 
 
 @st.composite
@@ -451,11 +484,13 @@ def prop_symvec(case, stats):
     else:
         v = guard(symvec, Ain, uplo)
     vd = unwrap(v, 'symvec')
+    _no_alias(vd, [Ain.data if is_utpm else Ain], 'symvec(A)')
     vm = _model_symvec(A, uplo)
     sz = uplo != 'F'            # 'F' computes 0.5*(a+b): exact, but complex arithmetic does not keep the sign of a zero part
     _same_bits(vd, vm, 'symvec(A,%r)' % uplo, signed_zero=sz)
     B = guard(vecsym, v)
     Bd = unwrap(B, 'vecsym')
+    _no_alias(Bd, [vd], 'vecsym(v)')
     _same_bits(Bd, _model_vecsym(vd, N), 'vecsym(v) for v = symvec(A,%r)' % uplo)
     _same_bits(Bd, _model_vecsym(vm, N), 'vecsym(symvec(A,%r))' % uplo, signed_zero=sz)
     if case['symmetric']:
@@ -579,6 +614,17 @@ def _build_container(case):
     return [[[elem((i, j, k)) for k in range(cshape[2])] for j in range(cshape[1])] for i in range(cshape[0])]
 
 
+def _flat_elems(c):
+    if isinstance(c, UTPM):
+        return [c]
+    if isinstance(c, np.ndarray):
+        return [e for e in c.ravel() if isinstance(e, UTPM)]
+    out = []
+    for e in c:
+        out += _flat_elems(e)
+    return out
+
+
 def _prop_container(case, stats, fn, name):
     _note_steered(case, stats)
     data = case['data'] = np.ascontiguousarray(case['data'])
@@ -588,6 +634,7 @@ def _prop_container(case, stats, fn, name):
         data = _apply_mix(data, (slice(None), slice(None)) + tuple(case['mix']['idx']), case['mix']['add'])
     z = _is_utpm(guard(fn, c), name)
     _same_bits(z.data, data, '%s(container).data' % name)
+    _no_alias(z.data, [case['data']] + [e.data for e in _flat_elems(c)], '%s(container).data' % name)
     # element-wise indexing back
     for idx in np.ndindex(*cshape):
         key = idx if len(idx) > 1 else idx[0]
@@ -846,6 +893,9 @@ def _cl_coeff(case):
 # ---------------------------------------------------------------------------
 
 def prop_combine(case, stats):
+    """blocks may differ in dtype (mix), in the number of directions (P_block = 1 stands for the same polynomial in every
+    direction: broadcast over p) and - once KF-combine_blocks-mixed-D is closed - in the number of coefficients
+    (D_block < D: the missing higher coefficients are zero)"""
     _note_steered(case, stats)
     data = case['data']
     rows, cols = list(case['rows']), list(case['cols'])
@@ -853,16 +903,29 @@ def prop_combine(case, stats):
     c0 = [sum(cols[:j]) for j in range(len(cols) + 1)]
     blk = (lambda a: a) if case.get('elem_view') else (lambda a: a.copy())      # blocks as views of one buffer, or own data
     mix = case.get('mix')
-
-    def block(i, j):
-        a = data[:, :, r0[i]:r0[i + 1], c0[j]:c0[j + 1]]
-        if mix is not None and tuple(mix['idx']) == (i, j):
-            return UTPM(a + mix['add'])                         # ONE block of a wider dtype
-        return UTPM(blk(a))
-    blocks = [[block(i, j) for j in range(len(cols))] for i in range(len(rows))]
+    pone = set(tuple(t) for t in case.get('pone', ()) or ())
+    dlow = dict((tuple(t[:2]), int(t[2])) for t in case.get('dlow', ()) or ())
+    exp = data
     if mix is not None:
         i, j = mix['idx']
-        data = _apply_mix(data, (slice(None), slice(None), slice(r0[i], r0[i + 1]), slice(c0[j], c0[j + 1])), mix['add'])
+        exp = _apply_mix(data, (slice(None), slice(None), slice(r0[i], r0[i + 1]), slice(c0[j], c0[j + 1])), mix['add'])
+    else:
+        exp = data.copy()
+
+    def block(i, j):
+        reg = (slice(None), slice(None), slice(r0[i], r0[i + 1]), slice(c0[j], c0[j + 1]))
+        if mix is not None and tuple(mix['idx']) == (i, j):
+            a = data[reg] + mix['add']                         # ONE block of a wider dtype
+        else:
+            a = blk(data[reg])
+        if (i, j) in pone:                                     # a single direction: the same polynomial in every direction
+            a = a[:, :1]
+            exp[reg] = exp[reg][:, :1]
+        if (i, j) in dlow:                                     # fewer coefficients: the higher ones are zero
+            a = a[:dlow[(i, j)]]
+            exp[(slice(dlow[(i, j)], None),) + reg[1:]] = 0
+        return UTPM(a)
+    blocks = [[block(i, j) for j in range(len(cols))] for i in range(len(rows))]
     if case['kind'] == 'objarr':
         arg = np.empty((len(rows), len(cols)), dtype=object)
         for i in range(len(rows)):
@@ -871,12 +934,22 @@ def prop_combine(case, stats):
         arg = _lay_case(case, arg)
     else:
         arg = blocks
+    before = [[b.data.tobytes() for b in r] for r in blocks]
     X = _is_utpm(guard(UTPM.combine_blocks, arg), 'combine_blocks')
-    _same_bits(X.data, data, 'combine_blocks(blocks).data')
+    _same_bits(X.data, exp, 'combine_blocks(blocks).data')
+    _no_alias(X.data, [data] + [b.data for r in blocks for b in r], 'combine_blocks(blocks).data')
+    if before != [[b.data.tobytes() for b in r] for r in blocks]:
+        raise Violation('combine_blocks modified a block')
     for i in range(len(rows)):
         for j in range(len(cols)):
             b = _is_utpm(guard(lambda a, b_: X[a, b_], slice(r0[i], r0[i + 1]), slice(c0[j], c0[j + 1])), 'getitem')
-            _same_bits(b.data, blocks[i][j].data, 'combine_blocks(blocks)[%d:%d,%d:%d].data' % (r0[i], r0[i + 1], c0[j], c0[j + 1]))
+            what = 'combine_blocks(blocks)[%d:%d,%d:%d].data' % (r0[i], r0[i + 1], c0[j], c0[j + 1])
+            bd = blocks[i][j].data
+            Db = bd.shape[0]
+            # cutting the result apart gives the block back: in every direction, on the coefficients the block has
+            _same_bits(b.data[:Db], np.broadcast_to(bd, (Db,) + b.data.shape[1:]), what)
+            if np.any(b.data[Db:] != 0):
+                raise Violation(what + ': coefficients beyond the %d coefficients of the block are not zero' % Db)
 
 
 @st.composite
@@ -895,6 +968,20 @@ def combine_cases(draw):
     if kind in ('i', 'f') and len(rows) * len(cols) >= 2 and draw(st.sampled_from([False, False, True])):
         i, j = draw(st.integers(0, len(rows) - 1)), draw(st.integers(0, len(cols) - 1))
         case['mix'] = {'idx': (i, j), 'add': draw(_mix_add((D, P, rows[i], cols[j]), kind))}
+    # blocks with a single direction / fewer coefficients than the others; one block always keeps the full (D, P)
+    nb = len(rows) * len(cols)
+    if nb >= 2 and (D > 1 or P > 1) and draw(st.sampled_from([False, True, True])):
+        allb = [(i, j) for i in range(len(rows)) for j in range(len(cols))]
+        full = draw(st.sampled_from(allb))
+        rest = [t for t in allb if t != full]
+        if P > 1:
+            case['pone'] = [list(t) for t in rest if draw(st.booleans())]
+        if D > 1:
+            low = [[t[0], t[1], draw(st.integers(1, D - 1))] for t in rest if draw(st.sampled_from([False, False, True]))]
+            if low and KF.is_open(KF_COMBINE_MIXED_D):
+                steered.append(KF_COMBINE_MIXED_D)
+            elif low:
+                case['dlow'] = low
     if ckind == 'objarr':
         draw(_draw_layout(case, 2, perm=False))
     else:
@@ -911,7 +998,8 @@ def _cl_combine(case):
     sq = all(r == c for r in case['rows'] for c in case['cols'])
     return (['container=' + case['kind'], 'blocks=%dx%d' % (len(case['rows']), len(case['cols'])),
              'square-blocks=%s' % sq, 'elem-view=%s' % bool(case.get('elem_view')), 'D=%d' % d.shape[0], 'P=%d' % d.shape[1],
-             'block-dtypes=%s' % ('uniform' if case.get('mix') is None else 'mixed')]
+             'block-dtypes=%s' % ('uniform' if case.get('mix') is None else 'mixed'),
+             'block-P=%s' % ('mixed(1,P)' if case.get('pone') else 'uniform'), 'block-D=%s' % ('mixed' if case.get('dlow') else 'uniform')]
             + _dtype_classes(d) + _layout_classes(case))
 
 
